@@ -439,3 +439,74 @@ def apply_real(g, op):
     if name in ("get_bond_stereo", "get_bond_stereo_change", "delete_bond_stereo"):
         return getattr(g, name)(tuple(args[0]))
     return getattr(g, name)(*args)
+
+
+# ---------------------------------------------------------------------------------------------------------
+# a stored history as a plain script (no explorer, no reference model): part of every replay file of C09 / C19
+# ---------------------------------------------------------------------------------------------------------
+
+def _py_desc(x):
+    c, t, p = x["D"] if isinstance(x, dict) else x
+    return f"sd.{c}({tuple(t)!r}, {p!r})"
+
+
+def _py_val(v):
+    if isinstance(v, str) and v.startswith("Change."):
+        return v
+    return repr(v)
+
+
+def _py_call(op):
+    name = op[0]
+    kw, args = _kw(op)
+    kws = "".join(f", {k}={_py_val(v)}" for k, v in kw.items())
+    if name in ("add_atom", "add_bond", "add_formed_bond", "add_broken_bond", "add_fleeting_bond"):
+        return f"g.{name}({', '.join(map(repr, args))}{kws})"
+    if name in ("set_atom_attribute", "set_bond_attribute"):
+        return f"g.{name}({', '.join(_py_val(a) for a in args)})"
+    if name == "relabel_atoms":
+        return f"g.relabel_atoms({dict(map(tuple, args[0]['map']))!r}, copy=False)"
+    if name in ("set_atom_stereo", "set_bond_stereo"):
+        return f"g.{name}({_py_desc(args[0])})"
+    if name in ("set_atom_stereo_change", "set_bond_stereo_change"):
+        return f"g.{name}({', '.join(f'{k}={_py_desc(v)}' for k, v in kw.items())})"
+    if name in ("delete_atom_stereo_change", "delete_bond_stereo_change"):
+        a = tuple(args[0]) if isinstance(args[0], list) else args[0]
+        return f"g.{name}({a!r}{', ' + args[1] if len(args) > 1 else ''})"
+    if name in ("get_bond_stereo", "get_bond_stereo_change", "delete_bond_stereo"):
+        return f"g.{name}({tuple(args[0])!r})"
+    special = {"eq_self": "g == g", "eq_copy": "g == g.copy()", "hash": "hash(g)", "str": "(str(g), repr(g))",
+               "copy_construct": "type(g)(g)", "subgraph_all": "g.subgraph(list(g.atoms))", "neighbors_getitem": f"g.neighbors[{args[0]!r}]" if args else "",
+               "as_dict": "JSONHandler.as_dict(g)", "json_serialize": "JSONHandler.json_serialize(g)", "views": "state(g)"}
+    if name in special:
+        return special[name]
+    if name == "views_getitem":
+        return f"[v.get({args[0]!r}) for v in (g.atoms_with_attributes, g.bonds_with_attributes, g.neighbors)]"
+    return f"g.{name}({', '.join(map(repr, args))})"
+
+
+def to_python(kind, hist, op=None):
+    """standalone script: rebuilds the history through the public API, prints every public view, performs the last call and
+    prints the views again"""
+    L = ["# standalone replay (needs only the library): PYTHONPATH=/repo/src /venv/bin/python this_file.py",
+         "import stereomolgraph as smg", "import stereomolgraph.stereodescriptors as sd", "from stereomolgraph.graphs.crg import Change",
+         "from stereomolgraph.experimental import JSONHandler", "", "",
+         "def state(g):",
+         "    out = {'atoms': list(g.atoms), 'bonds': [tuple(sorted(b, key=repr)) for b in g.bonds],",
+         "           'atom_attrs': {a: dict(g.get_atom_attributes(a)) for a in g.atoms},",
+         "           'bond_attrs': {tuple(sorted(b, key=repr)): dict(g.get_bond_attributes(*b)) for b in g.bonds},",
+         "           'neighbors': {a: sorted(n, key=repr) for a, n in g.neighbors.items()}}",
+         "    for v in ('atom_stereo', 'bond_stereo', 'atom_stereo_changes', 'bond_stereo_changes'):",
+         "        if hasattr(g, v):",
+         "            out[v] = {repr(k): repr(d) for k, d in getattr(g, v).items()}",
+         "    return out", "", "",
+         f"g = smg.{kind}()"]
+    for o in hist:
+        L.append(_py_call(o))
+    L.append("before = state(g)")
+    L.append("print('before:', before)")
+    if op is not None:
+        L += ["try:", f"    print('call returned:', {_py_call(op)})", "except Exception as e:",
+              "    print('call raised:', type(e).__name__, e)", "after = state(g)", "print('after: ', after)",
+              "print('changed:', [k for k in after if after.get(k) != before.get(k)])"]
+    return "\n".join(L) + "\n"
